@@ -1,7 +1,8 @@
 (* Entry points of the extracted model: [run cmd arg]. *)
 From Coq Require Import NArith List Bool.
 From PV Require Import Base.Sx Model.Forest Model.Table Model.LRDriver Model.Scan Model.Parser
-  Validators.TableStruct Validators.ForestSound Validators.TableComplete Validators.TableProgress Model.Errors Extract.Codec.
+  Validators.TableStruct Validators.ForestSound Validators.TableComplete Validators.TableProgress
+  Validators.LexSep Validators.ItemsSound Validators.ForestComplete Model.Errors Extract.Codec.
 From PV Require Import Extract.RunC19.
 From PV Require Import Extract.RunC12.
 From PV Require Import Extract.RunC09.
@@ -14,6 +15,7 @@ From PV Require Import Extract.RunC11.
 From PV Require Import Extract.RunC16.
 From PV Require Import Extract.RunC14.
 From PV Require Import Extract.RunC07.
+From PV Require Import Extract.RunTAB.
 From PV Require Import Extract.RunGLR.
 Import ListNotations.
 Local Open Scope N_scope.
@@ -108,6 +110,48 @@ Definition run_forest_labelled (s : sx) : sx :=
 Definition run_table_progress (s : sx) : sx :=
   ofB (table_progress (grammar_of_sx (sx_nth s 0)) (table_of_sx (sx_nth s 1)) (sxN (sx_nth s 2))).
 
+(* 13: sep_tokens (pconf pinput pos0 ((y s e) ...)) -- ws-based layout *)
+Definition run_sep_tokens (s : sx) : sx :=
+  let c := pconf_of_sx (sx_nth s 0) in
+  let inp := pinput_of_sx (sx_nth s 1) in
+  let toks := map (fun x => (sxN (sx_nth x 0), sxN (sx_nth x 1), sxN (sx_nth x 2))) (sxL (sx_nth s 3)) in
+  ofB (sep_tokens (rx_of inp) (in_len inp) (pc_stop c) (pc_tb c)
+                  (fun p => Some (skip_ws (pc_ws c) inp p)) (sxN (sx_nth s 2)) toks).
+
+(* 14: items_sound (grammar table) *)
+Definition run_items_sound (s : sx) : sx :=
+  let g := grammar_of_sx (sx_nth s 0) in
+  let tb := table_of_sx (sx_nth s 1) in
+  L [ofB (items_sound g tb); ofB (states_closure_ok g tb 0 tb); ofB (nonempty_items tb 0);
+     ofB (all_productive g); ofB (sprime_unique g)].
+
+(* 15: forest completeness (grammar forest chars rx ws start pos0 consume chart):
+       (forest_ok relaxed, chart_closed, forest_complete) *)
+Definition item_of_sx (s : sx) : item :=
+  (sym_of_sx (sx_nth s 0),
+   match sxNs (sx_nth s 1) with
+   | [a; b] => Some (a, b)
+   | _ => None
+   end).
+
+Definition run_forest_complete (s : sx) : sx :=
+  let g := grammar_of_sx (sx_nth s 0) in
+  let F := forest_of_sx (sx_nth s 1) in
+  let inp := mkPInput (sxNs (sx_nth s 2)) (map sxNs (sxL (sx_nth s 3))) in
+  let ws := sxNs (sx_nth s 4) in
+  let tokok := fun y b e => match rx_of inp y b with
+                            | Some l => (b + l =? e)
+                            | None => false
+                            end in
+  let C := map item_of_sx (sxL (sx_nth s 8)) in
+  let toks := matrix_toks (pi_rx inp) in
+  let start := sxN (sx_nth s 5) in
+  let pos0 := sxN (sx_nth s 6) in
+  let consume := sxB (sx_nth s 7) in
+  L [ofB (forest_ok g tokok (skip_ws ws inp) false start pos0 (in_len inp) consume F);
+     ofB (chart_closed g (skip_ws ws inp) C toks);
+     ofB (forest_complete g tokok (skip_ws ws inp) C toks start pos0 (in_len inp) consume F)].
+
 Definition run (cmd : N) (arg : sx) : sx :=
   match cmd with
   | 1 => run_forest_stats arg
@@ -122,6 +166,9 @@ Definition run (cmd : N) (arg : sx) : sx :=
   | 10 => run_det_table arg
   | 11 => run_forest_labelled arg
   | 12 => run_table_progress arg
+  | 13 => run_sep_tokens arg
+  | 14 => run_items_sound arg
+  | 15 => run_forest_complete arg
   | 190 => run_c19_unescape arg
   | 191 => run_c19_build arg
   | 192 => run_c19_match arg
@@ -163,6 +210,7 @@ Definition run (cmd : N) (arg : sx) : sx :=
   | 141 => run_c14_1 arg
   | 142 => run_c14_2 arg
   | 143 => run_c14_3 arg
+  | 220 | 221 | 222 | 223 | 224 => run_tab cmd arg
   | 210 => run_glr_210 arg
   | 211 => run_glr_211 arg
   | 212 => run_glr_212 arg
